@@ -21,6 +21,7 @@ P
   out=$(tools/eval_isolated.sh "/verif/$d/patch.diff" $ids 2>&1)
   if echo "$out" | grep -q "patch does not apply"; then echo "$id NOAPPLY"; continue; fi
   if echo "$out" | grep -q "BUILD FAILED"; then echo "$id BUILDFAIL"; continue; fi
+  if ! echo "$out" | grep -a -q -E "^\[C[0-9]+\] rc="; then echo "$id ERROR (the evaluation did not run: $(echo "$out" | tail -n 1))"; continue; fi
   caught=$(echo "$out" | grep -a -E "^\[C[0-9]+\] rc=1" | sed -E 's/^\[(C[0-9]+)\].*/\1/' | tr '\n' ' ')
   err=$(echo "$out" | grep -a -E "^\[C[0-9]+\] rc=2" | sed -E 's/^\[(C[0-9]+)\].*/\1/' | tr '\n' ' ')
   if [ -n "$caught" ]; then echo "$id CAUGHT by $caught${err:+(harness error: $err)}"; else echo "$id MISSED (ran: $ids)${err:+ harness error: $err}"; fi
